@@ -114,6 +114,24 @@ def run(tier, seed, drv):
         SC.stats_into(res, scn)
         base = run_scenario(scn, bus="sync")
         SC.check_run(scn, base, drv, res, monitors_on=(), corr=("inputs", "ticks"), case_extra={"bus": "sync"})
+        if not scn.get("stims") and "start_delays" not in scn and i % 2 == 0:
+            # latency in COMING UP: one component (a device or a whole system simulation) joins a few loop iterations after the
+            # others, on tickit's own in-memory interface (its initial Input is replayed to it when it subscribes) and on the
+            # delaying bus; the devices observe what they observe when all start together
+            tops = [c["name"] for c in scn["components"]]
+            syss = [c["name"] for c in scn["components"] if c["kind"] == "sys"]
+            who = rng.choice(syss) if syss and rng.random() < 0.7 else rng.choice(tops)
+            for lb in ("internal", "held"):
+                sd = rng.randrange(1 << 30)
+                s_late = dict(scn, start_delays={who: rng.choice((1, 2, 4))})
+                run_ = run_scenario(s_late, bus=lb, seed=sd)
+                res.case(SC.scn_key(scn) + f"late:{who}:{lb}", nontrivial=True)
+                res.count("late-component-start")
+                if run_["result"][0] != "ok" or monitors.run_failures(run_):
+                    res.violate(V("run-did-not-complete", f"with {who} coming up late on the {lb} bus: {run_['result']} {monitors.run_failures(run_)[:1]}", site="run"),
+                                {"scenario": s_late, "bus": lb, "held_seed": sd})
+                else:
+                    compare_obs(base, run_, f"all together vs {who} coming up late ({lb})", scn, res, {"scenario": s_late, "bus": lb, "held_seed": sd})
         for j in range((6 if scn.get("stims") else 3) if tier == "quick" else (12 if scn.get("stims") else 6)):
             sd = rng.randrange(1 << 30)
             # one schedule in three runs on tickit's own Kafka state interface (consumer loop, YAML round trip of every
